@@ -829,12 +829,12 @@ def rule_tglf(chk, prog):
 def run(chk):
     prog = chk.load()
     PROG[0] = prog
-    rule_tglf(chk, prog)
-    rule_vpsc_gap(chk, prog)
-    rule_tglf_node_ids(chk, prog)
+    chk.guard(rule_tglf, chk, prog)
+    chk.guard(rule_vpsc_gap, chk, prog)
+    chk.guard(rule_tglf_node_ids, chk, prog)
     extracted, TF, GT, ST = rule_transform(chk, prog)
-    rule_group(chk, prog, extracted)
-    rule_dir_commute(chk, prog, extracted, TF, GT, ST)
-    rule_enum_tables(chk, prog)
-    rule_neg_zero(chk, prog)
-    rule_flipped(chk, prog)
+    chk.guard(rule_group, chk, prog, extracted)
+    chk.guard(rule_dir_commute, chk, prog, extracted, TF, GT, ST)
+    chk.guard(rule_enum_tables, chk, prog)
+    chk.guard(rule_neg_zero, chk, prog)
+    chk.guard(rule_flipped, chk, prog)
